@@ -226,6 +226,37 @@ pub fn run(ctx: &Ctx) {
             }
         }
     });
+    // zero-sized VALUES whose plain encoding is not empty, through serialize_with_flavor directly
+    {
+        use crate::corpus::OneUnit;
+        let empty: &str = "";
+        let cobs_00 = {
+            let mut f = cobs_encode(&[0x00]);
+            f.push(0);
+            f
+        };
+        let mut buf = [0u8; 16];
+        let checks: Vec<(&str, Result<postcard::Result<Vec<u8>>, String>, Vec<u8>)> = vec![
+            ("AllocVec <- OneUnit", trap(|| serialize_with_flavor(&OneUnit::Only, AllocVec::new())), vec![0x00]),
+            ("RecPush <- OneUnit", trap(|| serialize_with_flavor(&OneUnit::Only, RecPush::default()).map(|x| x.0)), vec![0x00]),
+            ("Cobs<AllocVec> <- OneUnit", trap(|| Cobs::try_new(AllocVec::new()).and_then(|f| serialize_with_flavor(&OneUnit::Only, f))), cobs_00.clone()),
+            ("Cobs<Slice> <- (OneUnit, OneUnit)", trap(|| Cobs::try_new(Slice::new(&mut buf)).and_then(|f| serialize_with_flavor(&(OneUnit::Only, OneUnit::Only), f)).map(|o: &mut [u8]| o.to_vec())), {
+                let mut f = cobs_encode(&[0x00, 0x00]);
+                f.push(0);
+                f
+            }),
+            ("AllocVec <- str \"\"", trap(|| serialize_with_flavor::<str, _, _>(empty, AllocVec::new())), vec![0x00]),
+            ("RecExtend <- str \"\"", trap(|| serialize_with_flavor::<str, _, _>(empty, RecExtend::default()).map(|x| x.0)), vec![0x00]),
+            ("Cobs<AllocVec> <- [u8] empty", trap(|| Cobs::try_new(AllocVec::new()).and_then(|f| serialize_with_flavor::<[u8], _, _>(&[], f))), cobs_00.clone()),
+        ];
+        for (name, got, want) in checks {
+            calls.fetch_add(1, Ordering::Relaxed);
+            match got {
+                Ok(Ok(b)) if b == want => {}
+                other => ctx.violation("stack-zero-sized-value", format!("{name}: got {:?}, want {}", other.map(|r| r.map(|b| hex(&b))), hex(&want)), 0, json!({"stack": name})),
+            }
+        }
+    }
     let n = calls.load(Ordering::Relaxed);
     ctx.add_evals(n);
     ctx.add_nontrivial(n);
